@@ -6,6 +6,11 @@ from collections import Counter
 import common, corr, mobs
 from common import VERIF, WORK, TARGET, log
 
+NAME = 'managed'
+RULE_PREFIX = ('random thread-level label sequences on the real pool (profiles core/resize/close/mixed, '
+               'SplitMix64 from VERIF_SEED) plus corpus; each replayed in the Coq model by vm_compute and '
+               'compared on the projection of this property after every label; non-trivial = distinct '
+               'label sequence that ')
 BIN = os.path.join(TARGET, 'debug', 'h1_managed')
 PROPS = ['C01', 'C02', 'C03', 'C04', 'C06', 'C07', 'C08', 'C09', 'C11', 'C13']
 
@@ -386,8 +391,9 @@ def analyze(traces, mobs_all):
                     break
     for p in PROPS:
         summ[p]['nontrivial'] = len(summ[p]['nontrivial'])
-    return dict(props=summ, label_hist=dict(label_hist), outcome_hist=dict(outcome_hist),
-                result_hist={str(k): v for k, v in result_hist.items()}, op_hist=dict(op_hist),
+    return dict(props=summ, histograms=dict(labels=dict(label_hist), outcomes=dict(outcome_hist),
+                                            results={str(k): v for k, v in result_hist.items()},
+                                            ops=dict(op_hist)),
                 harness_errs=harness_errs)
 
 
@@ -411,8 +417,8 @@ def run_engine(seed, tier):
     mo = model_obs(traces, tag='m%d' % os.getpid())
     t2 = time.time()
     res = analyze(traces, mo)
-    res.update(ntraces=len(traces), ncorpus=ncorpus, gen_s=round(t1 - t0, 1), model_s=round(t2 - t1, 1),
-               analyze_s=round(time.time() - t2, 1), key=key, seed=seed, tier=tier)
+    res.update(ntraces=len(traces), ncorpus=ncorpus, key=key, seed=seed, tier=tier,
+               timing=dict(gen_s=round(t1 - t0, 1), model_s=round(t2 - t1, 1), analyze_s=round(time.time() - t2, 1)))
     # keep the traces needed for replays and samples
     keep = set()
     for p in PROPS:
@@ -425,3 +431,18 @@ def run_engine(seed, tier):
     json.dump(res, open(cpath, 'w'))
     res['cached'] = False
     return res
+
+
+def replay(payload):
+    tr = payload['trace']
+    traces = replay_traces([tr])
+    mo = model_obs(traces, tag='rp%d' % os.getpid())
+    t = traces[0]
+    for i, (l, o) in enumerate(zip(t['labels'], t['obs'])):
+        m = mo[0][i] if i < len(mo[0]) else None
+        flag = '  ' if m == o else '!!'
+        log('%s %3d %-26s impl  %s' % (flag, i, mobs.fmt_label(l), mobs.fmt_obs(o)))
+        if m != o:
+            log('   %3s %-26s model %s' % ('', '', mobs.fmt_obs(m) if m else 'label not enabled'))
+    P = [mobs.parse_obs(o) for o in t['obs']]
+    log('monitors: %s' % monitor_trace(t, P))
